@@ -32,8 +32,25 @@ def apply_tags(obj, tags):
     return obj
 
 
+class BuildError(Exception):
+    """Building a legal type through the public API raised: a failure of the library, reported by the harness."""
+    def __init__(self, T, orig):
+        Exception.__init__(self, '%s: %s' % (type(orig).__name__, orig))
+        self.T = T
+        self.orig = orig
+
+
 def schema(T, with_cons=True):
     """Build one pyasn1 schema object for the IR type T."""
+    try:
+        return _schema(T, with_cons)
+    except BuildError:
+        raise
+    except Exception as e:
+        raise BuildError(T, e)
+
+
+def _schema(T, with_cons=True):
     k = T['k']
     if k in SIMPLE_CLASS:
         if k in ('INTEGER', 'ENUMERATED') and T.get('named'):
